@@ -713,8 +713,10 @@ def _attached_as(facts, st):
     it.model_mem = True
     try:
         it.apply_fn(facts.body(d), [st])
-    except (EvalPanic, Unanalysable):
+    except EvalPanic:
         return None
+    except Unanalysable as ex:
+        return f'unanalysable: finalize_table: {ex}'
     if aot[2][0][2]['values'].items:
         return 'array'
     if any(nm == 'insert' for nm, _ in it.calls):
@@ -764,7 +766,11 @@ def header_start_model(facts):
             unopt = lambda v: (v[2][0] if len(v) > 2 else None) if isinstance(v, tuple) and v[:1] == ('ctor',) and v[1].startswith('core::option::Option::') else v
             out = {'span': unopt(f.get('span')), 'implicit': f.get('implicit'), 'dotted': f.get('dotted'), 'decor': f.get('decor'), 'position': unopt(f.get('doc_position')),
                    'adopted': f.get('tag') == 'adopted', 'path': [k[2].get('key') for k in getattr(st[2]['current_table_path'], 'items', [])], 'counter': st[2]['current_table_position']}
-            out['is_array'] = _attached_as(facts, st) == 'array'          # (this runs finalize_table on the state: last)
+            att = _attached_as(facts, st)                                   # (this runs finalize_table on the state: last)
+            if isinstance(att, str) and att.startswith('unanalysable'):
+                yield fn, case, att
+                continue
+            out['is_array'] = att == 'array'
             yield fn, case, out
 
 
